@@ -50,6 +50,10 @@ pub fn run(ctx: &ChildCtx, sh: &mut Shard) {
     for idx in ctx.indices() {
         ctx.begin_case(idx);
         let mut r = ctx.case_rng(idx);
+        if idx % 16 == 7 {
+            crate::chain_energy::probe(&mut r, sh, idx);
+            continue;
+        }
         let v1 = r.chance(1, 2);
         let mut cfg = pick_cfg(&mut r, v1);
         if r.chance(2, 5) {
